@@ -62,6 +62,31 @@ pub(crate) mod verif_probe {
                 let s = p.shards.values().next().unwrap();
                 Some(json!({"ok": s.validate().is_ok()}))
             }
+            "reload_invalid" => {
+                // parse a good file, then make it unreadable / syntactically / semantically invalid and reload
+                let kind = v["kind"].as_str().unwrap_or("toml").to_string();
+                let rt = tokio::runtime::Builder::new_current_thread().enable_all().build().unwrap();
+                Some(rt.block_on(async move {
+                    let good = std::fs::read_to_string(concat!(env!("CARGO_MANIFEST_DIR"), "/pgcat.toml")).unwrap();
+                    let dir = std::env::temp_dir().join(format!("verif_cfg_{}", std::time::SystemTime::now().duration_since(std::time::UNIX_EPOCH).unwrap().as_nanos()));
+                    std::fs::create_dir_all(&dir).unwrap();
+                    let path = dir.join("pgcat.toml");
+                    std::fs::write(&path, &good).unwrap();
+                    if parse(path.to_str().unwrap()).await.is_err() { return json!({"error": "baseline config does not parse"}); }
+                    let before = get_config();
+                    match kind.as_str() {
+                        "open" | "read" => { std::fs::remove_file(&path).unwrap(); }
+                        "toml" => { std::fs::write(&path, "this is [not toml").unwrap(); }
+                        "validate" => { std::fs::write(&path, good.replace("default_role = \"any\"", "default_role = \"nobody\"")).unwrap(); }
+                        _ => {}
+                    }
+                    let map: crate::pool::ClientServerMap = Arc::new(parking_lot::Mutex::new(std::collections::HashMap::new()));
+                    let r = reload_config(map).await;
+                    let after = get_config();
+                    let _ = std::fs::remove_dir_all(&dir);
+                    json!({"result": if r.is_ok() { "ok" } else { "err" }, "config_changed": before != after, "kind": kind})
+                }))
+            }
             "pool_default_validate" => {
                 let mut p = Pool::default();
                 Some(json!({"ok": p.validate().is_ok(), "shard_ids": p.shards.keys().cloned().collect::<Vec<String>>()}))
